@@ -119,7 +119,7 @@ func (c *Ctx) randomTape(r *Rng, big int) (*simdjson.ParsedJson, []byte) {
 			if op == nil {
 				break
 			}
-			it := iterAt(h.pj, op.K)
+			it := editIter(h.pj, op.K, op.Path, r)
 			safeApply(op, &it)
 		}
 	}
